@@ -495,7 +495,7 @@ def run_faults(run, vf, prop):
             traces.append((r["case"], "\n".join(json.dumps(x) for x in recs) + "\n", len(recs)))
     run.absorb(results)
     ack_only = stream_out[0][0] if stream_out[0] else []
-    if run.cov.get("undriven", 0) * 3 > len(cases):
+    if run.cov.get("undriven", 0) * 3 > 2 * len(cases):
         raise vf.Inconclusive("%d of %d scenarios could not be driven" % (run.cov["undriven"], len(cases)))
 
     def report(what, k, rest, case):
